@@ -123,6 +123,12 @@ func (fv *FV) call(e *Env, x *ast.CallExpr) Value {
 			args = append(args, fv.expr(e, a))
 		}
 	}
+	if recv != nil {
+		fv.escape(e, *recv)
+	}
+	for _, a := range args {
+		fv.escape(e, a)
+	}
 	if e.dead {
 		return fv.freshValue(rt, "dead")
 	}
@@ -155,6 +161,7 @@ func (fv *FV) call(e *Env, x *ast.CallExpr) Value {
 		if m, ok := libModels[fn.FullName()]; ok {
 			if v, ok := m(fv, e, x, recv, args); ok {
 				fv.trustedUsed["library model: "+fn.FullName()] = true
+				fv.applyBumps(e, fn, v)
 				return v
 			}
 		}
@@ -657,6 +664,7 @@ func (fv *FV) builtin(e *Env, x *ast.CallExpr, name string) Value {
 					fv.heapSet(e, comp, nn)
 				}
 			}
+			fv.markPrivate(e, r, u.Elem())
 			return Value{K: kSlice, T: r, Off: intLit(0), Len: n, Cap: c, Type: t}
 		case *types.Map:
 			r := fv.allocRef(e, "mkmap")
@@ -816,6 +824,11 @@ func (fv *FV) appendBuiltin(e *Env, x *ast.CallExpr) Value {
 	nn := fv.s.freshConst(comp, a.Sort)
 	fv.s.assume(eq(nn, store(a, r, inner)))
 	fv.heapSet(e, comp, nn)
+	// appended values leave their variables (they are now stored in an array)
+	for _, v := range vals {
+		fv.escape(e, v)
+	}
+	fv.markPrivate(e, r, elem)
 	return Value{K: kSlice, T: r, Off: intLit(0), Len: n, Cap: c, Type: t}
 }
 
@@ -1566,6 +1579,11 @@ func (fv *FV) ghostBuiltin(e *Env, x *ast.CallExpr, fn *types.Func) Value {
 		// gh_local[T]("x"): the unique local x of a nested block (see checkClause)
 		if o := fv.clauseLocal(x); o != nil {
 			if v, has := fv.lookup(e, o); has {
+				if fv.boxed[o] && v.K == kScalar && v.T.Sort == sRef {
+					if _, s := sortOf(o.Type()); s != sRef || fv.isBoxRef(e, o, v) {
+						return fv.loadCell(e, boxComp(o.Type()), o.Type(), "", v.T)
+					}
+				}
 				return v
 			}
 			if fv.spec != nil && fv.spec.lenient {
